@@ -46,8 +46,8 @@ def norm(line):
     return line
 
 
-def expected_lines(query, data, h):
-    o = aglib.run_impl_one(query, data, None)
+def expected_lines(query, data, h, mode=None):
+    o = aglib.run_impl_one(query, data, mode)
     text = o['out'].decode('utf8', 'replace')
     lines = [norm(l) for l in text.split('\n')]
     while lines and lines[-1] == '':
@@ -92,6 +92,11 @@ def run_live(ctx, queries, n):
             cp = rng.randrange(0, len(sched) - 1)
             sched[cp] = (sched[cp][0], 0.6)
         c = Case('p%d' % i, STAR, stages, [l.decode('utf8') for l in lines])
+        # one run in five in a machine-readable mode: until input ends the screen shows a one-line placeholder, then
+        # exactly the rows a non-terminal run prints (no residue of the placeholders); no catch-up checkpoint there
+        c.omode = rng.choice(['logfmt', 'format={k} {_count} {n}']) if rng.random() < 0.2 and h >= 12 else None
+        if c.omode:
+            cp = None
         jobs.append((c, sched, h, w, cp))
     # a post-aggregate `where` that first passes rows and later passes NONE: the table must shrink to `No data`
     for i in range(4 if n < 100 else 30):
@@ -102,11 +107,12 @@ def run_live(ctx, queries, n):
         later = [json.dumps({'id': 100 + j, 'k': k, 'a': 0}).encode() + b'\n' for j, k in enumerate(ks * 6)]
         sched = [(b''.join(first), rng.choice([0.15, 0.3])), (b''.join(later), 0.0)]
         c = Case('e%d' % i, STAR, stages, [l.decode('utf8') for l in first + later])
+        c.omode = None
         jobs.append((c, sched, rng.choice([8, 24]), rng.choice([80, 120]), None))
 
     def run(job):
         c, sched, h, w, cp = job
-        return ptydrive.run_pty(c.query, sched, h, w, checkpoints=(cp,) if cp is not None else ())
+        return ptydrive.run_pty(c.query, sched, h, w, mode=c.omode, checkpoints=(cp,) if cp is not None else ())
     with ThreadPoolExecutor(8) as ex:
         outs = list(ex.map(run, jobs))
     items = []
@@ -134,7 +140,11 @@ def run_live(ctx, queries, n):
             data = b''.join(s[0] for s in sched)
         else:
             data = b''.join(s[0] for s in sched[:cp + 1])
-        want, nontty = expected_lines(c.query, data, h)
+        want, nontty = expected_lines(c.query, data, h, c.omode)
+        if c.omode:
+            want = [norm(l) for l in (x.strip() for x in nontty['out'].decode('utf8', 'replace').split('\n')) if l]
+            if len(want) > h - 1:
+                continue            # these modes print every row: a result taller than the screen scrolls (nothing to compare)
         got = [norm(l) for l in scr['lines']]
         while got and got[-1] == '':
             got.pop()
@@ -146,18 +156,18 @@ def run_live(ctx, queries, n):
             what = ('once input ended the screen does not show exactly the final table' if kind == 'final'
                     else 'after 0.6 s of idle input the display has not caught up with the rows received so far')
             failures.append({'kind': 'spec', 'what': what + ': screen %r, expected %r' % (got[:8], want[:8]),
-                             'payload': {'query': c.query, 'terminal': [h, w], 'schedule': [(s[0].decode('utf8', 'replace'), s[1]) for s in sched],
+                             'payload': {'query': c.query, 'output_mode': c.omode, 'terminal': [h, w], 'schedule': [(s[0].decode('utf8', 'replace'), s[1]) for s in sched],
                                          'checkpoint_after_burst': cp, 'which': kind, 'screen': scr['lines'], 'expected_lines': want,
                                          'raw_bytes': o['out'][-2000:].decode('utf8', 'replace')}})
         if kind == 'final':
-            if b'\x1b' in nontty['out'] or sum(1 for l in nontty['out'].split(b'\n') if l and set(l) == {ord('-')}) > 1:
+            if c.omode is None and (b'\x1b' in nontty['out'] or sum(1 for l in nontty['out'].split(b'\n') if l and set(l) == {ord('-')}) > 1):
                 failures.append({'kind': 'spec', 'what': 'non-terminal run printed control sequences or more than one table', 'payload': {'query': c.query}})
             if nframes >= 3:
                 nontrivial.add(c.query + '\0' + str(sched))
     cov = {
         'evaluations': len(items), 'distinct_nontrivial': len(nontrivial),
         'rule': 'aggregate pipelines (incl. aggregate-of-aggregate, post-aggregate where/limit/total/sort, sort of records) on a pty of 1..40 rows x 60..200 columns, input split into timed bursts '
-                '(0..several refresh periods between bursts, idle gap before the first row, one 0.6 s idle checkpoint); the captured bytes are replayed through the extracted terminal model; '
+                '(0..several refresh periods between bursts, idle gap before the first row, one 0.6 s idle checkpoint); one run in five with -o logfmt / -o format= (placeholder frames, then the rows); the captured bytes are replayed through the extracted terminal model; '
                 'final screen and checkpoint screen compared with the table a non-terminal run prints (modulo padding, clipped to height-1); non-trivial = >= 3 frames drawn',
         'samples': [{'query': jobs[0][0].query, 'terminal': [jobs[0][2], jobs[0][3]], 'bursts': len(jobs[0][1])}],
         'pty_runs': len(jobs), 'frames_drawn_total': frames_seen, 'checkpoints': sum(1 for x in index if x[1] == 'snap'),
